@@ -1620,5 +1620,8 @@ class StarterModel(Starter):
                                  for command in job_list]
         super().next()
 
+    def after(self, application_job: ApplicationStartJobs) -> None:
+        """ Empty method so that a predicted starting failure (strategy STOP) does not stop the real application. """
+
     def publish_state_modes(self):
         """ Empty method to cancel states & mode publication. """
